@@ -47,7 +47,7 @@ def _progs(tier: str) -> List[Dict[str, Any]]:
         out.append({"prog": {"items": items, "first": first, "sink": sink}, "backward": backward})
 
     singles = ["rotate_half", "stack_mean", "masked", "index_rows", "reshape", "view_t", "neg", "sdpa:mask_kw", "sdpa:mask_pos",
-               "linear:F_bias_kw", "layer_norm:F_affine", "conv1d:F", "with_zeros", "gate_softmax", "add_param", "mul_scalar", "cmp_two", "cat_kw"]
+               "linear:F_bias_kw", "layer_norm:F_affine", "conv1d:F", "with_zeros", "gate_softmax", "add_param", "mul_scalar", "cmp_two", "cat_kw", "gather_argmax", "softmax:F"]
     for n, k in enumerate(singles):
         add([["op", k]], "x", ["sum", "two_outputs", "tensor"][n % 3])
         add([["op", "linear:nn"], ["op", k], ["op", "neg"]], ["x", "emb_pos", "emb"][n % 3], "two_outputs" if n % 2 else "mse")
@@ -71,7 +71,7 @@ def cases(tier: str, seed: int) -> List[Dict[str, Any]]:
     out = [dict(c, kind="prune", seed=seed) for c in _progs(tier)]
     # tier A: tracked graphs obtained by calling the tracking backend on emitted FX graphs
     akeys = ["linear:nn", "gelu:F", "rotate_half", "stack_mean", "masked", "with_zeros", "reshape", "neg", "cat_kw",
-             "cmp_two", "view_t", "mul_scalar", "sdpa:mask_kw"]
+             "cmp_two", "view_t", "mul_scalar", "sdpa:mask_kw", "gather_argmax"]
     depth = 3 if tier == "thorough" else 2
     for n, items in enumerate(chains(akeys, depth)):
         out.append({"kind": "prune", "tier_a": True, "prog": {"items": items, "first": "x", "sink": ["sum", "two_outputs", "tensor"][n % 3]},
@@ -196,12 +196,25 @@ def _check_result(ref: Ref, result: Any, removed: Dict[str, List[Optional[str]]]
 
 
 def _ref_non_float(ref: Ref) -> Dict[str, List[Optional[str]]]:
+    """Removal happens in graph order and each removed node is contracted onto its single float
+    input AS SEEN AT THAT MOMENT, so a chain float -> int -> int -> float-consumer stays connected
+    ("keeps the graph connected").  Where a node's only float input is nested / keyword, or it has
+    several float inputs, both readings are accepted."""
     removed: Dict[str, List[Optional[str]]] = {}
+
+    def cur(name: str) -> Optional[str]:
+        while name in removed:
+            nxt = removed[name][0]
+            if nxt is None:
+                return None
+            name = nxt
+        return name
+
     for name in ref.order:
         if ref.op[name] == "output" or ref.is_float[name]:
             continue
-        top = [a for a in ref.top[name] if ref.is_float[a]]
-        allf = [a for a in dict.fromkeys(ref.all_inputs[name]) if ref.is_float[a]]
+        top = [c for c in (cur(a) for a in ref.top[name]) if c is not None and ref.is_float[c]]
+        allf = [c for c in dict.fromkeys(cur(a) for a in ref.all_inputs[name]) if c is not None and ref.is_float[c]]
         if len(allf) == 1 and len(top) == 1:
             removed[name] = [top[0]]
         elif len(allf) == 1:
